@@ -15,7 +15,6 @@ NA = {
     "C05": "whole-database invariant after arbitrary committed histories (DB scans, kernel+system)",
     "C06": "fee reserve arithmetic would be an Engine-M target (Decimal kernels it rests on are decided under C24/C25), but the reserve's state machine was not encoded in the time available; declined rather than approximated",
     "C08": "rule evaluation needs the auth-zone stack through KernelSubstateApi + SBOR; the stubbed-leaf harness took 522 s for one requirement form in the probe and was not calibrated",
-    "C09": "transaction-processor/worktop semantics run through the kernel node heap and native calls",
     "C10": "lock accounting lives in IndexMap<Decimal,usize> behind SBOR field I/O; the MockApi vault probe did not finish in 25 min under CBMC",
     "C11": "no-panic for any payload in any native blueprint = whole engine; panic-freedom is asserted only inside the kernels claimed elsewhere",
     "C15": "RocksDB behind FFI / process crash points: not encodable",
@@ -103,7 +102,7 @@ def main():
                       "/verif/kani/Cargo.toml); forwarding shims only",
             "baseline_off_cmd": "cd /repo && cargo nextest run --workspace --no-fail-fast --tool-config-file "
                                 "pb:/w/lib/nextest.toml --profile pb --test-threads 8 --offline",
-            "source_commits": ["95d4ee54fd", "729da7e7a6", "ea684ee7c2", "e7036e008b", "fee16cad28", "4da43f6286", "3e6517f3b9", "e08dbe61d0"],
+            "source_commits": ["95d4ee54fd", "729da7e7a6", "ea684ee7c2", "e7036e008b", "fee16cad28", "4da43f6286", "3e6517f3b9", "e08dbe61d0", "50d3ffd37e"],
             "add_only": True,
         },
         "engines": [
